@@ -68,7 +68,14 @@ static long scanOn(uint8_t fill, const std::string &file, size_t imageWords) {
 }
 
 static std::string hexScratch(const char *leaf) { const char *b = getenv("HEX_SCRATCH"); return std::string(b && *b ? b : "/var/tmp") + "/" + leaf; } // scratch files live under out/<ID>/scratch (wiped with it)
+#include <signal.h>
+static const char *g_phase = "";
+static void onAlarm(int) {
+  printf("{\"ok\": false, \"why\": \"%s does not terminate (30 s): --max-cycles does not bound the run\"}\n", g_phase);
+  fflush(stdout); _exit(1);
+}
 int main(int argc, char **argv) {
+  signal(SIGALRM, onAlarm); alarm(30); g_phase = "a run with tracing off under a cycle limit";
   std::string tmplS = hexScratch("hexc12.XXXXXX"); char *d = mkdtemp(&tmplS[0]); if (d) chdir(d);
   // (1) sp = mem[1] is inside the image; exit(mem[sp+2]) where sp+2 is beyond the image (never written).
   //     BR +7 skips the data; word1 = 100 (sp); code: LDAC 0; OPR SVC  -> exit value = mem[102]
@@ -96,6 +103,15 @@ int main(int argc, char **argv) {
      0x11, 0x30, 0x82, 0x32, 0xD3,                                               // second read
      0x11, 0x61, 0x82, 0x30, 0xD3};                                              // LDBM 1; LDAI 1; STAI 2; LDAC 0; OPR SVC -> exit(second byte)
   std::string f4 = writeImage("p4.bin", p4);
+  alarm(60); g_phase = "a run with/without tracing under a cycle limit";
+  // (4b) the cycle limit cuts a run short at the same point with tracing off and on: the endless loop p2 under
+  //      --max-cycles 50 must return (with the same status) in both modes
+  int lim_off = -1, lim_on = -2;
+  for (int tr = 0; tr < 2; tr++) {
+    std::istringstream in; std::ostringstream os;
+    std::unique_ptr<hexsim::Processor> p(new hexsim::Processor(in, os, 50)); p->setTracing(tr == 1); p->load(f2.c_str());
+    int rc = p->run(); (tr ? lim_on : lim_off) = rc;
+  }
   int t_off = 0, t_on = 0; std::string e_off, e_on; long c_off = 0, c_on = 0; bool threw = false;
   for (int tr = 0; tr < 2; tr++) {
     remove("simout1");
@@ -109,7 +125,8 @@ int main(int argc, char **argv) {
   // (5) every word outside the loaded image is zero after construction over dirty storage + load (whole array scanned)
   long s5 = scanOn(0xA5, f1, (p1.size() + 3) / 4);
   std::string why;
-  if (s5 >= 0) why = "memory word " + std::to_string(s5) + " outside the loaded image is not zero after construction over dirty storage (reads of it depend on host memory)";
+  if (lim_off != lim_on) why = "a run cut short by --max-cycles returns a different status with tracing on";
+  else if (s5 >= 0) why = "memory word " + std::to_string(s5) + " outside the loaded image is not zero after construction over dirty storage (reads of it depend on host memory)";
   else if (threw || t_off != t_on || e_off != e_on || c_off != c_on) why = "enabling tracing changes exit value, echoed bytes or input consumption of a program using the read call";
   else if (a3 != b3 || a3 != c3 || a3 != d3) why = "exit value of a binary cut short depends on host heap contents";
   else if (a1 != b1) why = "exit value of a program reading an unwritten word differs with host memory";
